@@ -243,9 +243,13 @@ def build_runner(name):
 def load_known():
     p = os.path.join(VERIF, "known_findings.json")
     try:
-        return json.load(open(p))
+        known = json.load(open(p))
     except FileNotFoundError:
-        return []
+        known = []
+    extra = os.environ.get("VERIF_EXTRA_KNOWN")      # development aid: entries proposed but not yet reviewed; never set by registered commands
+    if extra and os.path.exists(extra):
+        known = known + json.load(open(extra))
+    return known
 
 
 def repo_head():
